@@ -2,6 +2,8 @@ import Driver.Sexp
 import Plenc.Spec.Format
 import Plenc.World
 import Plenc.Alias
+import Plenc.Descriptor
+import Plenc.JSONAny
 import Plenc.JSONOut
 import Plenc.Intern
 /-
@@ -37,6 +39,62 @@ def parseCall : Sexp → Option JSONOut.Call
   | .list [.atom _, .atom _, .atom h] => (parseHex h).map .tok
   | .list [.atom "time", .atom _, .atom _, .atom h] => (parseHex h).map .tok
   | _ => none
+
+partial def showDesc (d : Desc) : String :=
+  s!"(d {d.index} {hexOfStr d.name} {d.type.code} {hexOfStr d.typeName} {if d.explicitPresence then 1 else 0} {d.logicalType.code}" ++
+    String.join (d.elements.map fun e => " " ++ showDesc e) ++ ")"
+
+def showOCall : OCall → String
+  | .startObj => "so" | .endObj => "eo" | .startArr => "sa" | .endArr => "ea"
+  | .name r => s!"(n {hexOf r})" | .str r => s!"(s {hexOf r})"
+  | .int64 v => s!"(i64 {v})" | .uint64 v => s!"(u64 {v})"
+  | .f32 b => s!"(f32 {b})" | .f64 b => s!"(f64 {b})"
+  | .bool b => if b then "(b 1)" else "(b 0)"
+  | .time s n => s!"(t {s} {n})"
+  | .raw t => s!"(raw {hexOf t})"
+
+def showJOCall : JSONAny.OCall → String
+  | .startObj => "so" | .endObj => "eo" | .startArr => "sa" | .endArr => "ea"
+  | .name r => s!"(n {hexOf r})" | .str r => s!"(s {hexOf r})"
+  | .int64 v => s!"(i64 {v})" | .f64 b => s!"(f64 {b})"
+  | .bool b => if b then "(b 1)" else "(b 0)"
+  | .raw t => s!"(raw {hexOf t})"
+
+mutual
+partial def parseJV : Sexp → Option JSONAny.JVal
+  | .atom "null" => some .null
+  | .list [.atom "s", .atom h] => (parseHex h).map .str
+  | .list [.atom "i", .atom n] => n.toInt?.map .int
+  | .list [.atom "f", .atom n] => n.toNat?.map .float
+  | .list [.atom "b", .atom b] => some (.bool (b == "1"))
+  | .list [.atom "n", .atom h] => (parseHex h).map .num
+  | .list [.atom "an"] => some (.arr none)
+  | .list (.atom "a" :: xs) => (xs.mapM parseJV).map fun l => .arr (some l)
+  | .list [.atom "on"] => some (.obj none)
+  | .list (.atom "o" :: kvs) => (kvs.mapM parseJKV).map fun l => .obj (some l)
+  | _ => none
+partial def parseJKV : Sexp → Option (Bytes × JSONAny.JVal)
+  | .list [.atom k, v] => do let k ← parseHex k; let v ← parseJV v; pure (k, v)
+  | _ => none
+end
+
+partial def showJV : JSONAny.JVal → String
+  | .null => "null"
+  | .str s => s!"(s {hexOf s})"
+  | .int i => s!"(i {i})"
+  | .float b => s!"(f {b})"
+  | .bool b => if b then "(b 1)" else "(b 0)"
+  | .num t => s!"(n {hexOf t})"
+  | .arr none => "(an)"
+  | .arr (some xs) => "(a" ++ String.join (xs.map fun x => " " ++ showJV x) ++ ")"
+  | .obj none => "(on)"
+  | .obj (some kvs) =>
+      "(o" ++ String.join ((sortStrings (kvs.map fun kv => s!"({hexOf kv.1} {showJV kv.2})")).map (" " ++ ·)) ++ ")"
+
+def showJRT (v : JSONAny.JVal) : String :=
+  match JSONAny.jsonRoundTripTop v with
+  | .ok r => showJV r
+  | .err => "err" | .panic => "panic" | .hang => "hang"
 
 /-- one op of a `world` script against the multi-instance model (Plenc/World.lean). -/
 def worldOp (w : World.World) (o : Sexp) : World.World × String :=
@@ -81,11 +139,63 @@ def worldOp (w : World.World) (o : Sexp) : World.World × String :=
 
 def runOp (s : Sexp) : String :=
   match s with
+  -- C07: (sched family nthreads seed (schedule…)): the model's verdict for every
+  -- schedule is "every goroutine gets what it gets alone" (C07.use_never_sees_incomplete,
+  -- result_agrees_with_sequential): the implementation must answer the same
+  | .list (.atom "sched" :: _) => "same"
   -- C17: (world OP…)
   | .list (.atom "world" :: ops) =>
     let (_, outs) := ops.foldl (fun (acc : World.World × List String) o =>
       let (w', s) := worldOp acc.1 o; (w', acc.2 ++ [s])) (World.init, [])
     String.intercalate " | " outs
+  -- C14: (desc cfg T tag): the Descriptor of the codec
+  | .list [.atom "desc", cfgS, td, .atom tag] =>
+    match parseCfg cfgS, parseTyDef td, parseHexStr tag with
+    | some c, some d, some t =>
+      (match buildTop c d t with
+       | .ok ty => "ok " ++ showDesc (descriptor ty)
+       | _ => "builderr")
+    | _, _, _ => "bad-op"
+  -- C13: (desccalls cfg T tag V via): outputter calls of the descriptor walk over Marshal(v)
+  | .list [.atom "desccalls", cfgS, td, .atom tag, v, _, .atom dataH] =>
+    match parseCfg cfgS, parseTyDef td, parseHexStr tag, parseVal v, parseHex dataH with
+    | some c, some d, some t, some _, some data =>
+      (match buildTop c d t with
+       | .ok ty =>
+         -- the walk is over the implementation's own bytes (map iteration order is Go's)
+         (match descCalls ty data with
+          | .ok cs => "ok " ++ String.intercalate " " (cs.map showOCall)
+          | .err => "err" | .panic => "panic" | .hang => "hang")
+       | _ => "builderr")
+    | _, _, _, _, _ => "bad-op"
+  -- C16: (jrt position V [V2 | xDATA])
+  | .list [.atom "jrt", .atom "top", v, .atom dataH] =>
+    match parseJV v, parseHex dataH with
+    | some v, some data =>
+      let isObj := match v with | .obj _ => true | _ => false
+      -- decode the implementation's bytes; they must denote the same value as the model's own encoding
+      (match JSONAny.jsonDecodeTop isObj data with
+       | .ok r =>
+         if showJV r == showJRT v && data.length == (JSONAny.jsonEncodeTop v).length then "ok " ++ showJV r
+         else s!"ok {showJV r} ENC-MISMATCH {showJRT v}"
+       | .err => "err" | .panic => "panic" | .hang => "hang")
+    | _, _ => "bad-op"
+  | .list [.atom "jrt", .atom "field", v, v2] =>
+    match parseJV v, parseJV v2 with
+    | some v, some v2 => s!"ok -7 {showJRT v} {showJRT v2} x7a"
+    | _, _ => "bad-op"
+  | .list [.atom "jrt", .atom "skip", v, v2] =>
+    match parseJV v, parseJV v2 with
+    | some _, some _ => "ok -7 x7a"
+    | _, _ => "bad-op"
+  | .list [.atom "jrt", .atom "desc", v, .atom dataH] =>
+    match parseJV v, parseHex dataH with
+    | some v, some data =>
+      let isObj := match v with | .obj _ => true | _ => false
+      (match JSONAny.jsonDescTop isObj data with
+       | .ok cs => "ok " ++ String.intercalate " " (cs.map showJOCall)
+       | .err => "err" | .panic => "panic" | .hang => "hang")
+    | _, _ => "bad-op"
   -- C11: (alias cfg T tag V): decode, then overwrite the input buffer, then read the decoded value again
   | .list [.atom "alias", cfgS, td, .atom tag, v] =>
     match parseCfg cfgS, parseTyDef td, parseHexStr tag, parseVal v with
